@@ -18,6 +18,7 @@ import base64
 import pickle
 import re
 import signal
+import time
 from collections import Counter
 from typing import Any
 from typing import Callable
@@ -508,7 +509,7 @@ register(Entry('ZXZXZDecomposition', ['ZXZXZDecomposition'], _zxzxz_domain, _zxz
 
 # ----------------------------------------------------------------- retarget
 def _gsq_domain(rng: np.random.Generator, tier: str) -> tuple[Circuit, dict]:
-    kind = str(rng.choice(['u3', 'u3', 'vu', 'pauli', 'qutrit_vu', 'qutrit_u8', 'none']))
+    kind = str(rng.choice(['u3', 'u3', 'u3', 'u3', 'vu', 'vu', 'pauli', 'pauli', 'qutrit_vu', 'qutrit_u8', 'none']))
     opts = {'gateset': kind}
     if kind.startswith('qutrit'):
         return _sq_circuit(rng, 3), opts
@@ -595,7 +596,6 @@ register(Entry('Rebase2QuditGatePass', ['Rebase2QuditGatePass'], _rebase_domain,
 _AUTO_SETS = {
     'cz_u3': ['CZ', 'U3'], 'cx_u3': ['CNOT', 'U3'], 'isw_u3': ['ISWAP', 'U3'],
     'sqisw_u3': ['SQISW', 'U3'], 'cx_cz_u3': ['CNOT', 'CZ', 'U3'],
-    'cz_vu': ['CZ', 'VU1'],
 }
 
 
@@ -749,10 +749,15 @@ def run_case(
         res['error'] = 'refsim(before): %r' % (e,)
         return res
 
+    try:
+        comp = get_comp()      # start-up (and warm-up) is not part of the case watchdog
+    except Exception as e:
+        res['status'] = 'harness_error'
+        res['error'] = 'compile: could not start a compiler: %r' % (e,)
+        return res
     old = signal.signal(signal.SIGALRM, _alarm)
     signal.alarm(case_timeout(entry, ident.get('tier', 'quick')))
     try:
-        comp = get_comp()
         out, data = comp.compile(circuit.copy(), plan.workflow, request_data=True, data=plan.data)
     except CaseTimeout:
         signal.alarm(0)
@@ -777,8 +782,9 @@ def run_case(
             res['status'] = 'rejected_input'
             cnt('rejected_input_undocumented_exception')
             return res
+        where = info['pass_site'] if info['pass_site'] != '?' else info['site']
         witness(
-            'raised:' + info['exc'], exc=info['exc'], msg=info['msg'],
+            'raised:%s@%s' % (info['exc'], where), exc=info['exc'], msg=info['msg'],
             site=info['site'], frames=info['frames'], pass_site=info['pass_site'],
             observed='exception on an input satisfying the documented preconditions',
             expected='pass completes and preserves the unitary',
@@ -871,7 +877,16 @@ def run_batch(arg: tuple[int, str, list[tuple[str, int]]]) -> list[dict[str, Any
 
     def get_comp() -> Any:
         if state['comp'] is None:
-            state['comp'] = new_compiler(1, env=env)
+            from bqskit.passes.noop import NOOPPass
+            c = new_compiler(1, env=env)
+            try:
+                c.compile(Circuit(1), [NOOPPass()])   # warm-up: worker imports
+            except Exception:
+                try:
+                    c.close()
+                finally:
+                    raise
+            state['comp'] = c
         return state['comp']
 
     def drop_comp() -> None:
@@ -903,6 +918,7 @@ def run_batch(arg: tuple[int, str, list[tuple[str, int]]]) -> list[dict[str, Any
                 })
                 continue
             ident = {'seed': seed, 'idx': idx, 'tier': tier}
+            t0 = time.monotonic()
             r = run_case(get_comp, drop_comp, entry, circuit, opts, ident)
             if r['status'] == 'harness_error' and str(r.get('error', '')).startswith('compile:'):
                 # transient infrastructure failure (server lost): one retry
@@ -913,6 +929,7 @@ def run_batch(arg: tuple[int, str, list[tuple[str, int]]]) -> list[dict[str, Any
                 r['counters']['harness_retry'] = 1
                 if r['status'] == 'harness_error':
                     r['error'] = '%s (first attempt: %s)' % (r.get('error'), first)
+            r['wall'] = round(time.monotonic() - t0, 3)
             out.append(r)
     finally:
         drop_comp()
@@ -1201,7 +1218,7 @@ def _extract_plan(circuit: Circuit, opts: dict) -> Plan:
     )
 
 
-register(Entry('ExtractDiagonalPass', [], _extract_domain, _extract_plan, 10, 240, 4.0, 400))
+register(Entry('ExtractDiagonalPass', [], _extract_domain, _extract_plan, 5, 60, 4.0, 400))
 
 
 # ================================================================ synthesis
@@ -1305,8 +1322,8 @@ register(Entry('MGDPass', ['MGDPass'], _mgd_domain, _mgd_plan, 40, 1200, 0.2))
 
 
 def _fullqsd_domain(rng: np.random.Generator, tier: str) -> tuple[Circuit, dict]:
-    scan = bool(rng.random() < 0.15)
-    widths = [3, 3, 3, 2] if (scan or tier == 'quick') else [2, 3, 3, 3, 4]
+    scan = bool(rng.random() < 0.1)
+    widths = [3, 3, 3, 3, 2] if (scan or tier == 'quick') else [2, 3, 3, 3, 4]
     n = int(rng.choice(widths))
     c = Circuit(n)
     c.append_gate(VariableUnitaryGate(n), random_loc(rng, n, n), vu_params(special_unitary(rng, n)))
@@ -1363,7 +1380,7 @@ def _fullbzxz_domain(rng: np.random.Generator, tier: str) -> tuple[Circuit, dict
     c.append_gate(VariableUnitaryGate(n), random_loc(rng, n, n), vu_params(special_unitary(rng, n, 0.75)))
     o = {
         'min_qudit_size': 2, 'perform_scan': scan, 'left': bool(rng.random() < 0.5),
-        'tree_depth': int(rng.choice([0, 0, 1])), 'perform_extract': bool(rng.random() < 0.25),
+        'tree_depth': int(rng.choice([0, 0, 1])), 'perform_extract': bool(rng.random() < 0.2),
         'seed': int(rng.integers(1 << 30)),
     }
     return c, o
@@ -1503,7 +1520,7 @@ register(Entry('QPredictDecompositionPass', ['QPredictDecompositionPass'], _qpre
 
 _SYN_SETS = {
     'cx_u3': ['CNOT', 'U3'], 'cz_u3': ['CZ', 'U3'], 'isw_u3': ['ISWAP', 'U3'],
-    'cz_vu': ['CZ', 'VU1'],
+    'sqisw_u3': ['SQISW', 'U3'],
 }
 
 
@@ -1565,13 +1582,11 @@ def _pas_domain(rng: np.random.Generator, tier: str) -> tuple[Circuit, dict]:
     n = int(rng.choice([2, 3, 3]))
     c = _shallow_target(rng, n, 2 if n == 2 else 1)
     # append a permutation so that a non-trivial mapping is the cheapest
-    if rng.random() < 0.7 and n >= 2:
+    if rng.random() < 0.8 and n >= 2:
         perm = [int(x) for x in rng.permutation(n)]
-        from bqskit.ir.gates import PermutationGate
-        if rng.random() < 0.5:
-            c.append_gate(PermutationGate(n, perm), list(range(n)))
-        else:
-            c.insert_gate(0, PermutationGate(n, perm), list(range(n)))
+        at_end = bool(rng.random() < 0.5)
+    else:
+        perm, at_end = None, True
     both = rng.random()
     o = {
         'input_perm': bool(both < 0.3 or both > 0.85), 'output_perm': bool(both > 0.25),
@@ -1580,6 +1595,14 @@ def _pas_domain(rng: np.random.Generator, tier: str) -> tuple[Circuit, dict]:
     }
     if n == 3 and o['input_perm'] and o['output_perm']:
         o['input_perm'] = False  # 36 syntheses of 3 qubits: too slow for a check
+    if perm is not None:
+        from bqskit.ir.gates import PermutationGate
+        if o['input_perm'] != o['output_perm']:
+            at_end = o['output_perm']   # put the permutation where PAS may absorb it
+        if at_end:
+            c.append_gate(PermutationGate(n, perm), list(range(n)))
+        else:
+            c.insert_gate(0, PermutationGate(n, perm), list(range(n)))
     return c, o
 
 
